@@ -362,6 +362,44 @@ def run(tier, seed):
                 vandalise(res, rng)
         if h == 0:
             chk.sample({"history": hist[:12]})
+    # ONE credential record object verified, then its fields re-assigned to those of another ceremony and verified again (and back): every verification reads the record as
+    # it is NOW - the outcome equals that of a freshly built record with the same fields
+    import copy as _copy
+    from webauthn.helpers.structs import AuthenticationCredential as _AC, AuthenticatorAssertionResponse as _AAR, RegistrationCredential as _RC, AuthenticatorAttestationResponse as _ATR
+    import webauthn as _w
+    for kind in ("auth", "reg"):
+        mk = []
+        for i in range(2):
+            if kind == "auth":
+                s_ = authcat.Scn("ES256-P256"); s_.challenge = b"record-reuse-challenge-%d" % i
+                pol_, a_ = s_.build()
+                mk.append((pol_, a_, lambda a_=a_: _AC(id=a_.id_text, raw_id=a_.cred_id, response=_AAR(client_data_json=a_.cdj, authenticator_data=a_.ad, signature=a_.sig))))
+            else:
+                s_ = regsim.RScn("none", "ES256-P256"); s_.challenge = b"record-reuse-challenge-%d" % i
+                pd_, r_ = regsim.build(s_)
+                mk.append((regrun.policy_of(pd_), r_, lambda r_=r_: _RC(id=r_.id_text, raw_id=r_.cred_id, response=_ATR(client_data_json=r_.cdj, attestation_object=r_.att_obj))))
+        def ver(pol_, rec_):
+            try:
+                if kind == "auth":
+                    return "OK " + impl.pr_verified_auth(_w.verify_authentication_response(credential=rec_, **pol_.kwargs()))
+                with impl.substituted(pol_.substitute, pol_.now):
+                    return "OK " + impl.pr_verified_reg(_w.verify_registration_response(credential=rec_, **pol_.kwargs()))
+            except Exception as e:
+                return "ERR " + fw.classify_exc(e)
+        rec = mk[0][2]()
+        trace = []
+        for step, (src, polx) in enumerate(((0, 0), (1, 0), (1, 1), (0, 1), (0, 0))):
+            fresh = mk[src][2]()
+            for f_ in ("client_data_json", "authenticator_data", "signature", "attestation_object"):
+                if hasattr(fresh.response, f_):
+                    setattr(rec.response, f_, getattr(fresh.response, f_))
+            got, want = ver(mk[polx][0], rec), ver(mk[polx][0], fresh)
+            trace.append((src, polx, got[:40]))
+            chk.evals += 2
+            if got != want:
+                chk.violation(f"a {kind} credential record that was verified before and then given the fields of another ceremony is judged differently from a fresh record with the same fields: {got[:50]} instead of {want[:50]}",
+                              f"record-object-reuse {kind}", {"history": trace, "reused_record_outcome": got, "fresh_record_outcome": want})
+                break
     # new public API of the changed source (if any), used or abused, must not change what the existing entry points do
     probe_specs = [s_ for s_ in pool if s_[1] in ("auth", "reg") and s_[0].endswith(("/None", "/ok", "/signed-by-other-key", "/fault", "/challenge-other"))][:14]
     def _probe():
